@@ -277,8 +277,8 @@ ANTI_REORG_DELAY = 6
 
 
 def onchain_dust_band(feerate, dust_limit_sat=354):
-    """[lo, hi) msat: an HTLC B offers in this band has an output on C's commitment's... no: on exactly one of
-    the two commitments of a non-anchor channel (timeout weight 663 on B's, success weight 703 on C's)."""
+    """[lo, hi) msat: an HTLC B offers in this band has an output on exactly one of the two commitments of a
+    non-anchor channel: present on B's (timeout weight 663), trimmed on C's (success weight 703)."""
     return (dust_limit_sat + feerate * 663 // 1000) * 1000, (dust_limit_sat + feerate * 703 // 1000) * 1000
 
 
